@@ -100,7 +100,14 @@ class Component:
                 vio.append({'tid': tid, 'k': k, 'clause': clause, 'scenario': scen[tid]})
         res['driver_errors'] = [{'tid': t, 'error': e, 'scenario': scen[t]} for t, e in errs[:20]]
         res['n_driver_errors'] = len(errs)
-        res['violations'] = vio[:400]
+        counts = {}
+        keep = []
+        for x in vio:
+            counts[x['clause']] = counts.get(x['clause'], 0) + 1
+            if counts[x['clause']] <= 40:
+                keep.append(x)
+        res['clause_counts'] = counts
+        res['violations'] = keep[:600]
         res['n_violations'] = len(vio)
         res['samples'] = [scen[1]['ops'] if 1 in scen else None,
                           scen[base + 1]['ops'][:12] if rjobs else None]
